@@ -920,8 +920,17 @@ func (a *Authenticator) ServerHandshakeWithMessage(ctx context.Context, msg *mes
 	}
 
 	// NOW set up stream encryption AFTER authentication is complete
+	wantEncryption := negotiation.Encryption || a.config.Encryption == SecurityRequired || a.config.Integrity == SecurityRequired
 	if err := a.setupStreamEncryption(negotiation); err != nil {
 		return nil, fmt.Errorf("failed to setup stream encryption: %w", err)
+	}
+
+	// setupStreamEncryption carries on in the clear when the client sent no usable
+	// key. The session must not then be reported (advertised, cached, dispatched) as
+	// encrypted, and a negotiation that promised encryption fails instead.
+	negotiation.Encryption = a.stream.IsEncrypted()
+	if wantEncryption && !a.stream.IsEncrypted() {
+		return nil, fmt.Errorf("security negotiation failed: encryption was negotiated but no session key could be established with the client")
 	}
 
 	// Send post-authentication session info using Message API
